@@ -122,9 +122,13 @@ def run_contract(con: Any, args: dict[str, Any]) -> dict[str, Any]:
     except Exception as exc:  # pylint: disable=broad-except
         names = [c.__name__ for c in type(exc).__mro__]
         allowed = [n for n in raises if n in names]
+        may = con.__dict__.get("may_raise") or {}
+        may_allowed = [n for n in may if n in names]
         if allowed and expected[allowed[0]]:
-            return {"status": "ok", "outcome": f"raise {type(exc).__name__}"}
-        return {"status": "violated", "outcome": f"raise {type(exc).__name__}",
+            return {"status": "ok", "outcome": f"raise {type(exc).__name__}", "mro": names}
+        if may_allowed and call_named(may[may_allowed[0]], args):
+            return {"status": "ok", "outcome": f"raise {type(exc).__name__}", "mro": names}
+        return {"status": "violated", "outcome": f"raise {type(exc).__name__}", "mro": names,
                 "detail": f"real function raised {type(exc).__name__}({str(exc)[:200]}) not allowed by the contract here"}
     for name, flag in expected.items():
         if flag:
@@ -141,7 +145,30 @@ def run_contract(con: Any, args: dict[str, Any]) -> dict[str, Any]:
     return {"status": "ok", "outcome": "return", "result": repr(result)[:200]}
 
 
+def batch() -> int:
+    payload = json.loads(sys.stdin.read())
+    contracts = load_contracts()
+    con = contracts[payload["contract"]]
+    params = con.__dict__.get("params") or {}
+    outcomes = []
+    for model in payload["models"]:
+        try:
+            args = {name: build(desc, name, model) for name, desc in params.items()}
+        except Exception as exc:  # pylint: disable=broad-except
+            outcomes.append({"status": "unbuildable", "detail": f"{type(exc).__name__}: {exc}"[:200]})
+            continue
+        try:
+            outcome = run_contract(con, args)
+        except Exception as exc:  # pylint: disable=broad-except
+            outcome = {"status": "error", "detail": f"{type(exc).__name__}: {exc}"[:300]}
+        outcomes.append(outcome)
+    print(json.dumps({"outcomes": outcomes}))
+    return 0
+
+
 def main() -> int:
+    if "--batch" in sys.argv:
+        return batch()
     payload = json.loads(sys.stdin.read())
     try:
         contracts = load_contracts()
